@@ -554,6 +554,16 @@ def run(ctx: Any, prog: Program) -> None:
 
     # ---- T3/T4/T5: transition function of _handle_string ------------------------------------------
     hs = tk.func('Tokenizer._handle_string')
+    # what the handler returns as the string's text is the joined characters themselves: a module-level function applied to them that can return
+    # anything but its argument (a normaliser, a stripper, a case fold) rewrites content the writer put there on purpose
+    for r_ in [x for x in ast.walk(hs) if isinstance(x, ast.Return) and isinstance(x.value, ast.Tuple) and len(x.value.elts) == 2 and U(x.value.elts[0]).endswith('STRING')]:
+        txt_ = r_.value.elts[1]
+        if isinstance(txt_, ast.Call) and isinstance(txt_.func, ast.Name) and tk.has_func(txt_.func.id) and len(txt_.args) == 1 and 'join' in U(txt_.args[0]):
+            wfn = tk.func(txt_.func.id)
+            wprm = wfn.args.args[0].arg if wfn.args.args else None
+            rewrites = [x for x in ast.walk(wfn) if isinstance(x, ast.Return) and x.value is not None and not (isinstance(x.value, ast.Name) and x.value.id == wprm)]
+            ctx.check('C02.T4', not rewrites, tk, r_, f'_handle_string hands the decoded text to {txt_.func.id}() before returning it, and that function can return something else than its argument '
+                      f'(`{U(rewrites[0])[:70] if rewrites else ""}`): characters escape_text wrote unchanged do not come back unchanged', func='Tokenizer._handle_string', text='string text returned as decoded')
     loops = [s for s in hs.body if isinstance(s, ast.While)]
     if len(loops) != 1:
         raise AnalysisError('Tokenizer._handle_string: expected exactly one top-level `while True` loop')
@@ -756,6 +766,7 @@ def run(ctx: Any, prog: Program) -> None:
 
 
 MUTANTS = [
+    {'id': 'string_text_normalised_before_return', 'file': 'tokenizer.py', 'find': "            if next_char == '\"':\n                return Token.STRING, ''.join(value_chars)", 'replace': "            if next_char == '\"':\n                return Token.STRING, _compose(''.join(value_chars))", 'extra': [{'file': 'tokenizer.py', 'find': "class BaseTokenizer(abc.ABC):", 'replace': "def _compose(text: str) -> str:\n    if text.isascii():\n        return text\n    import unicodedata\n    return unicodedata.normalize('NFC', text)\n\n\nclass BaseTokenizer(abc.ABC):"}], 'expect': 'C02.T4'},
     {'id': 'long_strings_escaped_by_replace_passes', 'file': 'tokenizer.py', 'find': "    return (ESCAPE_MULTILINE_RE if multiline else ESCAPE_RE).sub(_escape_matcher, text)", 'replace': "    if len(text) < 4096:\n        return (ESCAPE_MULTILINE_RE if multiline else ESCAPE_RE).sub(_escape_matcher, text)\n    unescaped = '?/\\n' if multiline else '?/'\n    for char, escape in ESCAPES_INV.items():\n        if char not in unescaped and char in text:\n            text = text.replace(char, escape)\n    return text", 'expect': 'C02.T2'},
     {'id': 'multiline_pair_wrong_replacement', 'file': 'tokenizer.py', 'find': "ESCAPE_MULTILINE_RE = re.compile('|'.join(\n    re.escape(c) for c in ESCAPES_INV\n    if c not in '?/\\n'\n))\n", 'replace': "ESCAPES_INV_MULTILINE = {**ESCAPES_INV, '\\\\\\n': '\\\\\\\\n'}\ndel ESCAPES_INV_MULTILINE['\\n']\nESCAPE_MULTILINE_RE = re.compile('|'.join(\n    re.escape(c) for c in sorted(ESCAPES_INV_MULTILINE, key=len, reverse=True)\n    if c not in '?/'\n))\n", 'extra': [{'file': 'tokenizer.py', 'find': "def escape_text(text: str, multiline: bool=False) -> str:", 'replace': "def _escape_matcher_multiline(match: re.Match[str]) -> str:\n    return ESCAPES_INV_MULTILINE[match.group()]\n\n\ndef escape_text(text: str, multiline: bool=False) -> str:"}, {'file': 'tokenizer.py', 'find': "    return (ESCAPE_MULTILINE_RE if multiline else ESCAPE_RE).sub(_escape_matcher, text)", 'replace': "    if multiline:\n        return ESCAPE_MULTILINE_RE.sub(_escape_matcher_multiline, text)\n    return ESCAPE_RE.sub(_escape_matcher, text)"}], 'expect': 'C02.T2'},
     {'id': 'ok_multiline_pair_right_replacement', 'file': 'tokenizer.py', 'find': "ESCAPE_MULTILINE_RE = re.compile('|'.join(\n    re.escape(c) for c in ESCAPES_INV\n    if c not in '?/\\n'\n))\n", 'replace': "ESCAPES_INV_MULTILINE = {**ESCAPES_INV, '\\\\\\n': '\\\\\\\\\\n'}\ndel ESCAPES_INV_MULTILINE['\\n']\nESCAPE_MULTILINE_RE = re.compile('|'.join(\n    re.escape(c) for c in sorted(ESCAPES_INV_MULTILINE, key=len, reverse=True)\n    if c not in '?/'\n))\n", 'extra': [{'file': 'tokenizer.py', 'find': "def escape_text(text: str, multiline: bool=False) -> str:", 'replace': "def _escape_matcher_multiline(match: re.Match[str]) -> str:\n    return ESCAPES_INV_MULTILINE[match.group()]\n\n\ndef escape_text(text: str, multiline: bool=False) -> str:"}, {'file': 'tokenizer.py', 'find': "    return (ESCAPE_MULTILINE_RE if multiline else ESCAPE_RE).sub(_escape_matcher, text)", 'replace': "    if multiline:\n        return ESCAPE_MULTILINE_RE.sub(_escape_matcher_multiline, text)\n    return ESCAPE_RE.sub(_escape_matcher, text)"}], 'expect': None, 'note': 'negative control: backslash+LF replaced by escaped backslash + raw LF'},
